@@ -16,7 +16,7 @@ FILES = ["verif_backfill_test.go"]
 def sig(f):
     ev = f.get("event", {})
     if ev.get("ev") == "end" and not ev.get("done"):
-        return "end:backfill-never-completes-although-nothing-is-left-to-fetch"
+        return "end:backfill-never-completes-although-honest-peers-answer-every-request-or-nothing-is-left"
     if ev.get("ev") == "end":
         return "end:recorded-or-tracked-set-differs-from-the-true-ancestry"
     if ev.get("ev") == "save":
@@ -44,6 +44,11 @@ def run(ctx):
             ctx.cov["design_step_detects_missing_genesis_stop"] = hit
             if not hit:
                 raise vlib.Infra("sensitivity: the client without the genesis stop no longer violates Completes")
+            r = vlib.run_tlc(ctx, "mc-cursor", "Backfill_MC", "Backfill_MC_cursor.cfg")
+            hit = "Temporal property Completes was violated" in r["out"]
+            ctx.cov["design_step_detects_cursor_moved_by_response_length"] = hit
+            if not hit:
+                raise vlib.Infra("sensitivity: a cursor moved by the response length no longer violates Completes")
             r = vlib.run_tlc(ctx, "mc-ge", "Backfill_MC", "Backfill_MC_forward_ge.cfg")
             hit = "Invariant CompleteWhenDone is violated" in r["out"]
             ctx.cov["design_step_detects_forward_completion_one_timestamp_early"] = hit
@@ -81,7 +86,20 @@ def run(ctx):
                     ctx.add("forward_updates_at_exactly_one_window_with_equal_timestamp_ancestor_missing", 1)
             if ts[u["h"]] - ts[o] > win:
                 ctx.add("forward_updates_beyond_one_window", 1)
-        faulty = [l["beh"] for l in resps if l["beh"] != "honest"]
+        faulty = [l["beh"] for l in resps if l["beh"] != "honest"] + ["nopeer" for l in lines if l["ev"] == "nopeer"]
+        for l in resps:
+            if l["beh"].startswith("tail-") and len(l["blocks"]) >= 2:
+                good = 0
+                exp = None
+                for b in l["blocks"]:
+                    if not b["ok"] or b["id"] >= 99 or (exp is not None and b["id"] != exp):
+                        break
+                    good += 1
+                    exp = b["parent"]
+                if 0 < good < len(l["blocks"]) + (1 if l["beh"] == "tail-otherheight" else 0):
+                    ctx.add("responses_with_good_prefix_and_bad_tail", 1)
+                    ctx.cov.setdefault("bad_tail_positions", {})
+                    ctx.cov["bad_tail_positions"][str(good + 1)] = ctx.cov["bad_tail_positions"].get(str(good + 1), 0) + 1
         for b in set(faulty):
             ctx.cov.setdefault("faulty_responses", {})
             ctx.cov["faulty_responses"][b] = ctx.cov["faulty_responses"].get(b, 0) + faulty.count(b)
@@ -99,7 +117,7 @@ def run(ctx):
     if ctx.only is None:
         for k in ("blocks_saved", "scenarios_reaching_genesis", "scenarios_ending_past_the_window", "fabricated_blocks_offered",
                   "forward_updates_at_exactly_one_window_with_equal_timestamp_ancestor_missing",
-                  "forward_updates_beyond_one_window"):
+                  "forward_updates_beyond_one_window", "responses_with_good_prefix_and_bad_tail"):
             if not ctx.cov.get(k):
                 raise vlib.Infra("vacuity: no scenario with " + k)
         if len(ctx.cov.get("faulty_responses", {})) < 8:
@@ -118,7 +136,8 @@ def run(ctx):
                        "{1,2,3,5,8,1000}, node starts with the target and 0-2 ancestors (often sharing a timestamp with the next older blocks), "
                        "0-2 forward blocks handed to UpdateSyncTarget at exactly / just beyond / just below one window after the "
                        "oldest held block, script of 0-4 faulty responses "
-                       "(partial, truncated, forged, reordered, swapped, dup, otherheight, fork, empty, error, nopeer; slow in "
+                       "(partial, truncated, forged, reordered, swapped, dup, otherheight, fork, empty, error, nopeer, good linked "
+                       "prefix + garbage / forged / missing block at positions 2-6 in every 4th scenario; slow in "
                        "thorough) followed by honest answers of the real handler; non-trivial = at least one faulty response "
                        "and at least one recorded block; distinct = distinct (chain, window, start, script)")
     ctx.assumptions += ["block ids are collision-free hashes of the block bytes (the driver's parser computes them from the bytes)",
@@ -126,4 +145,5 @@ def run(ctx):
                         "UpdateSyncTarget is issued by the driver while the client waits for a response (never concurrently with the "
                         "client's block loop), with the next true block only",
                         "'not done' is decided by a 30 s watchdog (normal completion takes a few 500 ms rounds) and is only a "
-                        "violation when nothing is left to fetch or 4 consecutive honest answers were just served"]
+                        "violation when nothing is left to fetch or the last 4 requests were all answered honestly (whatever the "
+                        "client asked for)"]
